@@ -5,6 +5,7 @@ P=$1; shift
 # /repo is shared with other runners: one patch at a time
 exec 9>/tmp/repo.lock
 flock 9
+export VERIF_LOCK_HELD=1
 cd /repo || exit 2
 git diff --quiet || { echo "/repo has uncommitted changes"; exit 2; }
 git apply "$P" || { echo "patch does not apply: $P"; exit 2; }
